@@ -498,6 +498,13 @@ func c04Gen(tier string, rng *rand.Rand) []mCase {
 		c := mk("clean", "", b.bytes)
 		c.expect = "any"
 		cs = append(cs, c)
+		// the canonical image a conforming peer sends: the members of every struct value in ascending tag order (the
+		// identity on a conforming encoding; differs when the generated WriteTo emits members out of tag order)
+		{
+			c := mk("canonical-order", "members of every struct value re-ordered by tag", canonBytes(b.bytes, b.spans))
+			c.expect, c.ref, c.sigHint = "equal", clean, "canonical-order"
+			cs = append(cs, c)
+		}
 		known := schemaTags(b.e.typ)
 		for i := 0; i < 3; i++ {
 			n := 1 + rng.Intn(5)
